@@ -136,11 +136,18 @@ func (d Dir) Mode() (string, time.Time) {
 	//
 	// If the modefile contains a date, return it.
 	if idx := strings.Index(mode, " "); idx >= 0 {
-		d, err := time.Parse(DateOnly, mode[idx+1:])
+		m := mode[:idx]
+		d, err := time.Parse(DateOnly, strings.TrimSpace(mode[idx+1:]))
 		if err != nil {
+			if m == "on" {
+				// "on" since a date that cannot be read: this is not one of
+				// the known forms, and it must not be taken for "on" without
+				// a date (which allows everything to be uploaded).
+				return "local", time.Time{}
+			}
 			d = time.Time{}
 		}
-		return mode[:idx], d
+		return m, d
 	}
 
 	return mode, time.Time{}
